@@ -208,6 +208,9 @@ func CombinationIndex(comb []int, n, k int) int {
 	}
 	contains := make(map[int]struct{}, k)
 	for _, v := range comb {
+		if v < 0 || n <= v {
+			panic("combin: comb contains an element outside [0,n)")
+		}
 		contains[v] = struct{}{}
 	}
 	if len(contains) != k {
